@@ -17,7 +17,7 @@ open CashewsVerif CashewsVerif.Decor
     `true` = the outcome is stored (plain or wrapped, which `Res.enc` tells from the kind). -/
 def accepts (c : Cond) (b : Beh) : Bool :=
   match c.eval b.kind b.dur, b.kind with
-  | .bool true, .exc _ => false
+  | .bool true, .exc _ _ => false
   | .bool true, _ => true
   | .theExc, _ => true
   | _, _ => false
